@@ -80,6 +80,49 @@ func (c *vfCtx) Stat(name string, v float64) {
 	}
 }
 
+// HistoryLen files the length of a generated history / list into a bucket of the class histogram,
+// so that the evidence shows what the generator really produced.
+func (c *vfCtx) HistoryLen(what string, n int) {
+	b := "40+"
+	switch {
+	case n < 4:
+		b = "0-3"
+	case n < 8:
+		b = "4-7"
+	case n < 20:
+		b = "8-19"
+	case n < 40:
+		b = "20-39"
+	}
+	c.classes[what+"_length="+b]++
+	c.Stat(what+"_length", float64(n))
+}
+
+// vfListOf draws a list whose LENGTH is drawn explicitly. rapid's SliceOfN sizes lists geometrically
+// with mean min+min(max(min,5),(max-min)/2) whatever max is, so "1..60 operations" would mean six
+// operations on average and essentially never forty. Here 40 % of the lists are short (lo..lo+7),
+// 40 % come from the lower half of the range and 20 % from the upper half; the length and the
+// elements still shrink (length towards lo).
+func vfListOf[E any](rt *rapid.T, label string, elem *rapid.Generator[E], lo, hi int) []E {
+	a, b := lo, hi
+	switch cl := rapid.IntRange(0, 9).Draw(rt, label+"_length_class"); {
+	case cl < 4:
+		b = lo + 7
+	case cl < 8:
+		b = (lo + hi) / 2
+	default:
+		a = (lo + hi) / 2
+	}
+	if b > hi {
+		b = hi
+	}
+	if a > b {
+		a = b
+	}
+	n := rapid.IntRange(a, b).Draw(rt, label+"_length")
+	return rapid.SliceOfN(elem, n, n).Draw(rt, label)
+}
+
 func (c *vfCtx) ClassIf(cond bool, name string) {
 	if cond {
 		c.classes[name]++
@@ -300,11 +343,17 @@ func vfCheck[C any](t *testing.T, prop string, gen func(*rapid.T) C, run func(C,
 
 	// --- search -------------------------------------------------------------------
 	failed := false
+	journal := os.Getenv("VERIF_JOURNAL")
 	rapid.Check(t, func(rt *rapid.T) {
 		c := gen(rt)
 		ctx := newCtx()
-		v := vfSafe(func() *vfViolation { return run(c, ctx) })
 		cj, _ := json.Marshal(c)
+		if journal != "" {
+			// the case about to run: if the process dies inside it (a panic on a library goroutine
+			// cannot be recovered here) the driver replays this file in a fresh process
+			os.WriteFile(journal, cj, 0o644)
+		}
+		v := vfSafe(func() *vfViolation { return run(c, ctx) })
 		mu.Lock()
 		if !failed {
 			res.Evaluations++
